@@ -208,7 +208,7 @@ def impl(case):
             xargs += ["-c" if sh else "--chunk-size", "3"]
             xkw["chunk_size"] = 3
         elif e == "environment":
-            xargs += ["-e" if sh else "--environment", "0.4"]
+            xargs += ["--environment", "0.4"]  # has no short spelling
             xkw["environment"] = 0.4
         elif e == "prevalence":
             xargs += ["-p" if sh else "--prevalence", "0.25"]
@@ -402,7 +402,12 @@ def oracle(case, obs):
         known_h = list(HAPS)
         want = [h for h in known_h if case["ids"] is None or h in case["ids"]]
         got = [r[0] for r in a["records"]]
-        if got != want:
+        if "maf" in case.get("extras", []):
+            # --maf additionally drops haplotypes whose frequency among the chosen samples is below the threshold
+            it = iter(want)
+            if not all(any(x == y for y in it) for x in got):
+                return f"transform --maf listed {got}, not a selection (in order) of the requested known IDs {want}"
+        elif got != want:
             return f"transform listed {got} for requested IDs {case['ids']} (unknown IDs must be ignored, never replaced)"
         ws = [s for s in SAMPLES if case["samples"] is None or s in case["samples"]]
         if a["samples"] != ws:
